@@ -53,6 +53,42 @@ func hit(kind string, id int) ast.Stmt {
 
 // Instrument writes instrumented copies of all library sources under outDir
 // and returns the overlay entries (repo path -> generated path).
+// RewriteLocks makes the instrumenter replace every statement `X.Lock()` / `X.RLock()` by
+// `for !X.TryLock() { verifrt.Blocked() }` (TryRLock for RLock), so that a lock held by a parked thread of the
+// cooperative scheduler makes the waiter yield instead of blocking the process. Purely syntactic; the driver falls back
+// to RewriteLocks = false when the result does not build (a Lock method on a type without TryLock).
+var RewriteLocks = true
+
+func rewriteLockStmts(list []ast.Stmt) {
+	for i, st := range list {
+		es, ok := st.(*ast.ExprStmt)
+		if !ok {
+			continue
+		}
+		call, ok := es.X.(*ast.CallExpr)
+		if !ok || len(call.Args) != 0 {
+			continue
+		}
+		sel, ok := call.Fun.(*ast.SelectorExpr)
+		if !ok {
+			continue
+		}
+		try := ""
+		switch sel.Sel.Name {
+		case "Lock":
+			try = "TryLock"
+		case "RLock":
+			try = "TryRLock"
+		default:
+			continue
+		}
+		list[i] = &ast.ForStmt{
+			Cond: &ast.UnaryExpr{Op: token.NOT, X: &ast.CallExpr{Fun: &ast.SelectorExpr{X: sel.X, Sel: ast.NewIdent(try)}}},
+			Body: &ast.BlockStmt{List: []ast.Stmt{&ast.ExprStmt{X: &ast.CallExpr{Fun: &ast.SelectorExpr{X: ast.NewIdent("verifrt"), Sel: ast.NewIdent("Blocked")}}}}},
+		}
+	}
+}
+
 func Instrument(repo, outDir, mode, _ string) (map[string]string, error) {
 	st := &state{next: 1, funcNames: map[int]string{}, sites: map[int]string{}}
 	overlay := map[string]string{}
@@ -95,6 +131,19 @@ func Instrument(repo, outDir, mode, _ string) (map[string]string, error) {
 					Fun:  &ast.SelectorExpr{X: ast.NewIdent("verifrt"), Sel: ast.NewIdent("I")},
 					Args: []ast.Expr{&ast.BasicLit{Kind: token.INT, Value: fmt.Sprint(id)}, e},
 				}
+			}
+			if RewriteLocks && mode == "sched" {
+				ast.Inspect(f, func(nd ast.Node) bool {
+					switch x := nd.(type) {
+					case *ast.BlockStmt:
+						rewriteLockStmts(x.List)
+					case *ast.CaseClause:
+						rewriteLockStmts(x.Body)
+					case *ast.CommClause:
+						rewriteLockStmts(x.Body)
+					}
+					return true
+				})
 			}
 			ast.Inspect(f, func(nd ast.Node) bool {
 				switch x := nd.(type) {
